@@ -4,6 +4,7 @@ package c03
 import (
 	"bytes"
 	"fmt"
+	"math"
 	"reflect"
 	"strings"
 
@@ -230,11 +231,85 @@ func Spec() *explore.Spec {
 	}
 	spec.Families = append(spec.Families, &explore.Family{Name: "length-ladder", ShardDepth: 2, Body: ladder,
 		Doc: "20 positions of a length-delimited payload (string, bytes, nested, pointer, repeated, map key/value, Message/custom leaf, element counts) x every payload length 0..300 and 16370..16400 (thorough: ..2100 and around 2^21): every length-prefix width boundary at every nesting position"})
+	spec.Families = append(spec.Families, &explore.Family{Name: "varint-widths", ShardDepth: 2, Body: varintWidths,
+		Doc: "every varint byte count 1..10 x {smallest, largest, alternating bits, top group only} as int64 / uint64 / sint64 / int32 / uint32 / sint32 field, pointer, repeated element, map key and map value"})
 	spec.Families = append(spec.Families, &explore.Family{Name: "recursive-types", ShardDepth: 2, Serial: true, Body: recursiveTypes,
 		Doc: "recursive message types (through []*T, map[string]*T, *T inside []T, []T by value) reached through an outer type before / after the recursive type was used on its own, values 1-3 levels deep: Size, Marshal, Unmarshal, equality"})
 	spec.Families = append(spec.Families, &explore.Family{Name: "after-failed-decode", ShardDepth: 2, Body: afterFailedDecode,
 		Doc: "histories of length 2: a decode that fails (the encoding of a fully populated value truncated at every offset, or with one byte replaced by 0x07 / 0xff at every offset) followed by Unmarshal(Marshal(v)) of sparse values of the same type (maps of messages, of pointers to messages, of strings; repeated messages): pooled scratch state must not leak into the second decode"})
 	return spec
+}
+
+// ---- every varint width: the encoder has one unrolled case per byte count
+
+type vwT struct {
+	I   int64            `protobuf:"varint,1,opt,name=i"`
+	U   uint64           `protobuf:"varint,2,opt,name=u"`
+	S   int64            `protobuf:"zigzag64,3,opt,name=s"`
+	R   []uint64         `protobuf:"varint,4,rep,name=r"`
+	M   map[uint64]int64 `protobuf:"bytes,5,rep,name=m"`
+	I32 int32            `protobuf:"varint,6,opt,name=i32"`
+	U32 uint32           `protobuf:"varint,7,opt,name=u32"`
+	S32 int32            `protobuf:"zigzag32,8,opt,name=s32"`
+	P   *uint64          `protobuf:"varint,9,opt,name=p"`
+}
+
+func varintWidths(c *explore.Ctx) {
+	k := 1 + c.Choose(10) // number of bytes of the varint
+	which := c.Choose(4)  // smallest value of the width, largest, alternating bit pattern, top byte only
+	lo := uint64(1) << (7 * uint(k-1))
+	if k == 1 {
+		lo = 0
+	}
+	hi := uint64(math.MaxUint64)
+	if k < 10 {
+		hi = uint64(1)<<(7*uint(k)) - 1
+	}
+	var u uint64
+	switch which {
+	case 0:
+		u = lo
+	case 1:
+		u = hi
+	case 2:
+		u = lo | (0x5555555555555555 & hi)
+	case 3:
+		u = lo | (hi &^ (hi >> 7))
+	}
+	unzig := func(z uint64) int64 { return int64(z>>1) ^ -int64(z&1) }
+	v := vwT{I: int64(u), U: u, S: unzig(u), R: []uint64{u, 1, u}, M: map[uint64]int64{u: int64(u)}, P: &u}
+	if u <= math.MaxUint32 {
+		v.U32 = uint32(u)
+		v.I32 = int32(uint32(u))
+		v.S32 = int32(unzig(u))
+	}
+	var b []byte
+	var merr, uerr error
+	var out vwT
+	size := -1
+	if pv, ps := explore.Catch(func() {
+		size = proto.Size(&v)
+		b, merr = proto.Marshal(&v)
+		if merr == nil {
+			uerr = proto.Unmarshal(b, &out)
+		}
+	}); pv != nil {
+		c.Fail("varint-width:panic:"+ps, "round trip panics for the %d-byte varint %#x: %v", k, u, pv)
+		return
+	}
+	switch {
+	case merr != nil:
+		c.Fail("varint-width:Marshal-error", "Marshal fails for the %d-byte varint %#x: %v", k, u, merr)
+	case size != len(b):
+		c.Fail("varint-width:Size", "Size %d, len(Marshal) %d for the %d-byte varint %#x", size, len(b), k, u)
+	case uerr != nil:
+		c.Fail(fmt.Sprintf("varint-width:Unmarshal-error:%d-bytes", k), "Unmarshal(Marshal(v)) fails for the %d-byte varint %#x: %v (bytes % x)", k, u, uerr, b)
+	case !reflect.DeepEqual(normalize(reflect.ValueOf(&out)).Interface(), normalize(reflect.ValueOf(&v)).Interface()):
+		c.Fail(fmt.Sprintf("varint-width:value-differs:%d-bytes", k), "Unmarshal(Marshal(v)) != v for the %d-byte varint %#x: got %+v (bytes % x)", k, u, out, b)
+	}
+	c.NontrivialStr("vw", fmt.Sprint(k, which))
+	c.Outcome(fmt.Sprintf("bytes=%d", k))
+	c.Case(map[string]any{"varint_bytes": k, "value": fmt.Sprintf("%#x", u), "encoded": fmt.Sprintf("%x", b)})
 }
 
 // ---- recursive message types, reached through a pointer / map / slice before the type itself was ever used
